@@ -7,16 +7,20 @@ DRIVER = "c05"
 MODEL = "C05"
 MODEL_QUALID = "Model.Retry.run_script"
 FORMAT = ("script [ma_mode(bit0: 0 fixed max_attempts, 1 per-request; ma_mode//2: 0 one service per request, 1 all requests through one Retry handle, 2 through clones of one handle); ma_fixed; "
-          "pred_mode(0 none,1 error flag,2 code even,3 never); bkind(0 none,1 token bucket); bmax; binit; nreq; L; "
+          "pred_mode(mod 4: 0 none,1 error flag,2 code even,3 never; //4 != 0: attempts beyond L fail retryably for ever); "
+          "bkind(bit0: token bucket; //2 builder route: 0 .backoff(FnInterval table), 1 .fixed_backoff(backoff_0), 2 .exponential_backoff(backoff_0), 3 builder default, "
+          "4 RetryLayer::exponential_backoff(), 5 aggressive(), 6 conservative() - the presets bring their own max_attempts 3/5/2); bmax; binit; nreq; L; "
           "backoff x L (a duration: below 2^40 milliseconds, 2^40+n = n nanoseconds); nreq blocks [max_i; (okind(0 ok,1 err flagged retryable,2 err flagged not) payload gated(0 immediate,1 on Complete) ready(0 ok,1 error 100000+payload,2 pending until MakeReady)) x L]; "
           "(op a)*] op 1=Poll a 2=Advance a(ms) 3=Complete a 4=MakeReady a. "
           "trace: per event [r(-1 no poll,0 pending,1 Ok,2 Err,5 poll panicked,9 nothing to poll); payload; wake mask; balance(-1 none); deposits; grants; denials] "
-          "++ per request [ncalls; (start_ms, end_ms|-1) per inner call] ++ [calls on an instance not polled ready]")
+          "++ per request [ncalls; (start_ms, end_ms|-1) per inner call] ++ [calls on an instance not polled ready or with a changed request; retries started before a withdrawal had been granted to that request]")
 RULE = ("structured schedules (complete/poll/advance-by-backoff rounds interleaved over 1-3 requests sharing one budget, with random omissions, late polls, early completions; "
         "requests through separate services, one shared Retry handle or its clones) "
         "+ uniformly random event lists + all outcome streams up to a small length x max_attempts 0..5 x predicate x budget 0..3 "
         "+ backoffs that are not whole milliseconds (1 ns .. 2.9 ms, polled every millisecond) + long backoffs (minutes to 2^36 ms, polled one millisecond before and at the deadline) "
-        "+ bursts of 130-300 zero-backoff failures in one poll (tokio's cooperative budget of 128 per poll, incl. gated calls and a positive backoff at the budget edge, max_attempts up to 400); "
+        "+ bursts of 130-300 zero-backoff failures in one poll (tokio's cooperative budget of 128 per poll, incl. gated calls and a positive backoff at the budget edge, max_attempts up to 400) "
+        "+ the built-in builder routes fixed_backoff / exponential_backoff / builder default / the three presets, whole-ms and sub-ms initial intervals "
+        "+ one run of 10^4 attempts compared with the model, and marathon runs of 66000-70000 attempts judged by the monitor alone (the unary-nat model cannot run them; model_input gives the model an empty script and compare skips them); "
         "non-trivial = some request made a retry, was denied by the budget, or failed readiness")
 TRUSTED = ["tokio::time::sleep (ready at the first poll at or after the deadline rounded UP to a whole millisecond), oneshot wake-ups, and tokio's cooperative budget "
            "(128 completed Sleep/oneshot operations per poll of a task; the next one returns Pending after waking the task itself): modelled in Lib/TokioTime.v + Model/Retry.v drive, tied to the library only by this correspondence run",
@@ -56,13 +60,18 @@ def parse(s):
     s = list(s) + [0] * max(0, 8 - len(s))
     ma_mode, ma_fixed, pred, bkind, bmax, binit, n, L = s[:8]
     n, L = max(0, n), max(0, L)
+    tail, pred = pred // 4 != 0, pred % 4
+    route, bkind = bkind // 2, bkind % 2
     g = lambda i: s[i] if 0 <= i < len(s) else 0
     backoffs = [ns_of(g(8 + k)) for k in range(L)]
+    preset_max = {4: 3, 5: 5, 6: 2}.get(route)
     blk = 1 + 4 * L
     reqs = []
     for i in range(n):
         base = 8 + L + i * blk
         mx = max(0, ma_fixed) if ma_mode % 2 == 0 else max(0, g(base))
+        if preset_max is not None:
+            mx = preset_max
         ent = [tuple(g(base + 1 + 4 * k + j) for j in range(4)) for k in range(L)]
         reqs.append((mx, ent))
     rest = s[8 + L + n * blk:]
@@ -73,14 +82,14 @@ def parse(s):
             evs.append((op, a))
         elif op == 2:
             evs.append((op, a))
-    return dict(ma_mode=ma_mode % 2, handle=ma_mode // 2, pred=pred, bkind=bkind, bmax=max(0, bmax), binit=max(0, binit), n=n, L=L,
+    return dict(tail=tail, route=route, ma_mode=ma_mode % 2, handle=ma_mode // 2, pred=pred, bkind=bkind, bmax=max(0, bmax), binit=max(0, binit), n=n, L=L,
                 backoffs=backoffs, reqs=reqs, evs=evs)
 
 
 def decode(s, t):
     p = parse(s)
     ne = len(p["evs"])
-    if len(t) < 7 * ne + p["n"] + 1:
+    if len(t) < 7 * ne + p["n"] + 2:
         return None
     evt = [t[7 * k:7 * k + 7] for k in range(ne)]
     pos = 7 * ne
@@ -93,14 +102,37 @@ def decode(s, t):
             return None
         calls.append([(t[pos + 2 * j], t[pos + 2 * j + 1]) for j in range(c)])
         pos += 2 * c
-    if pos != len(t) - 1:
+    if pos != len(t) - 2:
         return None
-    return p, evt, calls, t[-1]
+    return p, evt, calls, (t[-2], t[-1])
 
 
 def entry(p, i, k):
     ent = p["reqs"][i][1]
-    return ent[k] if k < len(ent) else (0, 0, 0, 0)
+    return ent[k] if k < len(ent) else ((1, k, 0, 0) if p["tail"] else (0, 0, 0, 0))
+
+
+def backoff_ns(p, k):
+    """the configured backoff before retry k+1 (RetryPolicy::next_backoff(k)) restated per builder route"""
+    b0 = p["backoffs"][0] if p["L"] else 0
+    r = p["route"]
+    if r == 1:
+        return b0
+    if r == 2:
+        return b0 * 2 ** k
+    if r in (3, 4):
+        return 100 * MS * 2 ** k
+    if r == 5:
+        return 50 * MS * 2 ** k
+    if r == 6:
+        return 500 * MS * 2 ** k
+    return p["backoffs"][k] if k < p["L"] else 0
+
+
+def terminal(p, i, k, mx):
+    """the outcome of attempt k ends the request: success, refused error, or the last permitted attempt"""
+    e = entry(p, i, k)
+    return e[0] == 0 or not retryable(p, e) or k + 1 >= max(1, mx)
 
 
 def retryable(p, e):
@@ -113,28 +145,34 @@ def retryable(p, e):
 
 # ---------------------------------------------------------------- monitor
 def monitor(s, t):
-    """C05 and nothing more: (a) every request that returned made at least one inner call, and no
-    request makes more than max(1, max_attempts); (b) a retry follows only an error the predicate
+    """C05 and nothing more: (a) every request that was polled made at least one inner call, and no
+    request makes more than max(1, max_attempts); a request whose newest inner call ended with a terminal
+    outcome (success, refused error, last permitted attempt) has returned, or at least has woken itself to do so; (b) a retry follows only an error the predicate
     accepts; the request returns the outcome of its last inner call (or, as the repaired code does,
     the readiness error of the service before the next attempt) and gives up on a retryable error
     only for a reason the statement allows (max_attempts, a denied withdrawal, service not ready);
     (c) retry k+1 starts no earlier than the failure of attempt k + backoff(k), in nanoseconds;
-    (d) with a budget, a request never has more retries than withdrawals granted to it.
+    (d) with a budget, a request never has more retries than withdrawals granted to it, and each retry
+    starts only after its withdrawal was granted (counted by the driver at the inner call).
     How the budget computes its answers, when it is refilled, what balance() shows are C08's business
     and are pinned here by the model comparison only."""
     d = decode(s, t)
     if d is None:
         return "malformed or panicking run: %s" % t[:12]
-    p, evt, calls, viol = d
+    p, evt, calls, (viol, ungranted) = d
     n = p["n"]
     if viol != 0:
-        return "inner service called %d times on an instance that was not polled ready" % viol
+        return "inner service called %d times on an instance that was not polled ready (or with a changed request)" % viol
+    if ungranted != 0:
+        return "%d retries were started before the budget had granted a withdrawal for them (no grant, no retry)" % ungranted
     returned = {}          # request -> (r, payload)
+    polled = set()
     grants_by = [0] * n
     denials_by = [0] * n
     for k, ((op, a), o) in enumerate(zip(p["evs"], evt)):
         r, payload, mask, b, dep, gr, dn = o
         if op == 1:
+            polled.add(a)
             if r == 5:
                 return "request %d: the poll panicked instead of returning a result (event %d)" % (a, k)
             if r in (1, 2):
@@ -151,6 +189,13 @@ def monitor(s, t):
         nc = len(cs)
         if nc > max(1, mx):
             return "request %d: %d inner calls, max(1, max_attempts) = %d" % (i, nc, max(1, mx))
+        if i in polled and nc < 1:
+            return "request %d was polled but the inner service was never invoked" % i
+        if (nc >= 1 and i not in returned and cs[nc - 1][1] >= 0 and terminal(p, i, nc - 1, mx)
+                and evt and not (evt[-1][2] >> i) & 1):
+            # the outcome was observed inside a poll of the request; the future is still pending and nothing
+            # has woken it (a future that merely yields once more before returning has its wake flag set)
+            return "request %d observed the terminal outcome %s of attempt %d but has not returned" % (i, entry(p, i, nc - 1)[:2], nc - 1)
         for k in range(nc - 1):
             e = entry(p, i, k)
             if not retryable(p, e):
@@ -158,7 +203,7 @@ def monitor(s, t):
             st, en = cs[k]
             if en < 0:
                 return "request %d: attempt %d started while attempt %d still in flight" % (i, k + 1, k)
-            bk = p["backoffs"][k] if k < p["L"] else 0
+            bk = backoff_ns(p, k)
             if cs[k + 1][0] * MS < en * MS + bk:
                 return "request %d: attempt %d started at %d ms, earlier than failure at %d ms + backoff %d ns" % (
                     i, k + 1, cs[k + 1][0], en, bk)
@@ -227,6 +272,19 @@ def corpus():
     # ... with a 3 ms backoff exactly where the budget runs out
     out.append(build(0, 200, 0, 0, 0, 0, [0] * 128 + [3] + [0] * 21, [(0, [e(1, k) for k in range(150)])],
                      [(1, 0), (1, 0), (2, 3), (1, 0), (1, 0)]))
+    # fixed_backoff(0.9 ms) and fixed_backoff(1.9 ms): the retry waits until the next whole millisecond at or after it
+    out.append(build(0, 3, 0, 2, 0, 0, [FLAG + 900000, 0], [(0, [e(1, 1), e(1, 2)])], [(1, 0), (1, 0), (2, 1), (1, 0), (1, 0), (2, 1), (1, 0)]))
+    out.append(build(0, 3, 0, 2, 0, 0, [FLAG + 1900000, 0], [(0, [e(1, 1), e(1, 2)])], [(1, 0), (2, 1), (1, 0), (2, 1), (1, 0), (2, 1), (1, 0), (2, 1), (1, 0)]))
+    # exponential_backoff(3 ms): 3, 6, 12 ms; builder default and the presets: 100/50/500 ms doubling, max_attempts 3/5/2 from the preset
+    out.append(build(0, 5, 0, 4, 0, 0, [3, 0, 0, 0], [(0, [e(1, 1), e(1, 2), e(1, 3), e(0, 4)])],
+                     [(1, 0), (2, 2), (1, 0), (2, 1), (1, 0), (2, 5), (1, 0), (2, 1), (1, 0), (2, 11), (1, 0), (2, 1), (1, 0)]))
+    for route, d0 in ((3, 100), (4, 100), (5, 50), (6, 500)):
+        evs = [(1, 0)]
+        for k in range(5):
+            evs += [(2, d0 * 2 ** k - 1), (1, 0), (2, 1), (1, 0)]
+        out.append(build(0, 9, 0, 2 * route, 0, 0, [0] * 6, [(0, [e(1, k + 1) for k in range(6)])], evs))
+    # 300 attempts on a table of 2: the tail fails retryably for ever (pred_mode 4)
+    out.append(build(0, 300, 4, 0, 0, 0, [0, 0], [(0, [e(1, 1), e(1, 2)])], [(1, 0), (1, 0), (1, 0), (1, 0)]))
     # two requests through ONE Retry handle / through clones of it
     for hm in (1, 2):
         out.append(build(2 * hm, 3, 0, 1, 2, 1, [3, 3, 3],
@@ -389,6 +447,61 @@ def coop_burst(rng):
     return build(per_request + 2 * rng.choice([0, 0, 1, 2]), mx_fixed, 0, bk, 400, binit, backoffs, reqs, evs)
 
 
+def routes(rng):
+    """the built-in builder routes: fixed_backoff, exponential_backoff, builder default and the three presets;
+    polled one millisecond before each deadline and at it (and every millisecond for sub-ms initial intervals)"""
+    route = rng.choice([1, 1, 1, 2, 2, 3, 4, 5, 6])
+    L = rng.randint(1, 6)
+    b0 = rng.choice([1, 2, 3, 5, 7, FLAG + 900000, FLAG + 1900000, FLAG + 300000, FLAG + 1, FLAG + 2500000, 0])
+    n = rng.choice([1, 1, 2])
+    pr = rng.choice([0, 0, 1])
+    mx = rng.choice([L + 1, L + 1, 2, 3, 7])
+    reqs = []
+    for i in range(n):
+        nf = rng.randint(1, L)
+        reqs.append((mx, [((rng.choice([1, 1, 1, 2]) if k < nf else 0), 100 * i + 10 * k + rng.randrange(10), 0, 0) for k in range(L)]))
+    p = dict(route=route, backoffs=[ns_of(b0)], L=1)
+    evs = [(1, i) for i in range(n)]
+    for k in range(L):
+        d = backoff_ns(p, k)
+        whole = -(-d // MS)
+        if d % MS or whole <= 3:
+            for _ in range(whole + 1):
+                evs.append((2, 1))
+                evs += [(1, i) for i in range(n)]
+        else:
+            evs.append((2, whole - 1))
+            evs += [(1, i) for i in range(n)]
+            evs.append((2, 1))
+            evs += [(1, i) for i in range(n)]
+    bk = rng.choice([0, 0, 1])
+    return build(rng.choice([0, 1]) + 2 * rng.choice([0, 0, 1, 2]), mx, pr, bk + 2 * route, 8, 8, [b0] + [0] * (L - 1), reqs, evs)
+
+
+def long_run(rng, attempts):
+    """one request, zero backoff, every attempt fails retryably (tail mode): `attempts` inner calls, 128 per poll"""
+    polls = attempts // 128 + 3
+    return build(0, attempts, 4, 0, 0, 0, [], [(0, [])], [(1, 0)] * polls)
+
+
+MARATHON = 20000          # above this many attempts the model is not run (unary nat): judged by the monitor alone
+
+
+def is_marathon(s):
+    p = parse(s)
+    return p["tail"] and any(mx > MARATHON for (mx, _) in p["reqs"])
+
+
+def model_input(s, impl_trace):
+    return [] if is_marathon(s) else s
+
+
+def compare(s, impl, model):
+    if is_marathon(s):
+        return None
+    return None if impl == model else "traces differ"
+
+
 def exhaustive(maxlen, maxes, budgets, preds=(0, 1), backoff=2):
     """every outcome stream up to maxlen over {ok, retryable, refused}: one request, prompt polling"""
     for L in range(1, maxlen + 1):
@@ -412,6 +525,8 @@ def generate(rng, tier):
         out += [submilli(rng) for _ in range(150)]
         out += [long_delays(rng) for _ in range(60)]
         out += [coop_burst(rng) for _ in range(80)]
+        out += [routes(rng) for _ in range(120)]
+        out += [long_run(rng, 10000), long_run(rng, 66000), long_run(rng, 70000)]
     else:
         out += [structured(rng) for _ in range(30000)]
         out += [unstructured(rng, 80) for _ in range(10000)]
@@ -420,6 +535,8 @@ def generate(rng, tier):
         out += [submilli(rng) for _ in range(3000)]
         out += [long_delays(rng) for _ in range(1000)]
         out += [coop_burst(rng) for _ in range(600)]
+        out += [routes(rng) for _ in range(3000)]
+        out += [long_run(rng, a) for a in (10000, 16000, 66000, 70000, 131100)]
     return out
 
 
@@ -440,6 +557,9 @@ def classify(s, t):
         out.append("has_submillisecond_backoff")
     if any(b >= 60000 * MS for b in p["backoffs"]):
         out.append("has_backoff_of_a_minute_or_more")
+    out.append("builder_route_%d" % p["route"])
+    if p["tail"]:
+        out.append("tail_fails_for_ever")
     for (mx, _) in p["reqs"]:
         if mx == 0:
             out.append("has_max0")
@@ -448,7 +568,7 @@ def classify(s, t):
     if d:
         _, evt, calls, _ = d
         m = max([len(c) for c in calls] + [0])
-        out.append("most_calls_%s" % (min(m, 5) if m < 129 else "129plus"))
+        out.append("most_calls_%s" % (min(m, 5) if m < 129 else "129plus" if m < 10000 else "10000plus" if m < 65536 else "65536plus"))
         if any(o[0] == 0 and o[2] & (1 << a) for (op, a), o in zip(p["evs"], evt) if op == 1):
             out.append("poll_ended_self_woken_(coop_budget)")
         if any(o[6] for o in evt):
